@@ -13,7 +13,8 @@ def run_case(c):
     d = tempfile.mkdtemp(prefix='selftest.', dir=SCRATCH)
     try:
         subprocess.run(['rsync', '-a', '--exclude', 'target', '--exclude', '.git', '/repo/', d + '/'], check=True)
-        p = subprocess.run(['patch', '-p1', '-s', '-d', d, '-i', os.path.join(HERE, 'patches', c['patch'])], capture_output=True, text=True)
+        pf = c['patch'] if os.path.isabs(c['patch']) else os.path.join(HERE, 'patches', c['patch'])
+        p = subprocess.run(['patch', '-p1', '-s', '-d', d, '-i', pf], capture_output=True, text=True)
         if p.returncode != 0:
             return c, 'PATCH-FAILED', p.stdout[-300:] + p.stderr[-300:]
         env = dict(os.environ, MZK_REPO=d, MZK_EVIDENCE_SUFFIX='.selftest')
@@ -36,6 +37,14 @@ def main():
     if '--only' in a:
         only = a[a.index('--only') + 1]
     cases = json.load(open(os.path.join(HERE, 'cases.json')))['cases']
+    # the seeded changes written by independent sub-agents (seeded/<id>/patch.diff) are part of the suite: expectation = first rule that reports them
+    sd = os.path.join(VERIF, 'seeded')
+    for pid in sorted(os.listdir(sd)) if os.path.isdir(sd) else []:
+        mp = os.path.join(sd, pid, 'meta.json')
+        if os.path.exists(mp):
+            m = json.load(open(mp))
+            if m.get('reported_by') and m['reported_by'] != 'MISSED':
+                cases.append(dict(patch=os.path.join(sd, pid, 'patch.diff'), property=m['property'], expect='[' + m['reported_by'].split(',')[0] + ']'))
     if only:
         cases = [c for c in cases if only in c['patch'] or only == c['property']]
     bad = 0
